@@ -19,7 +19,7 @@ PROPS = {
     "C04": {"lean": ["WorkflowModel.Props.C04"], "suites": SIMADV,
             "modelled": ENGINE_MODELLED + ["strconv.ParseInt of the record_version header (canonical decimal renderings only)"],
             "assumptions": ["reads are current for the 'acted only when current' clause; with a replica lagging at exactly the event's version the clause fails on the unchanged tree (known finding F16)"]},
-    "C05": {"lean": ["WorkflowModel.Props.C05"], "suites": SIM,
+    "C05": {"lean": ["WorkflowModel.Props.C05"], "suites": SIM + ["mem-recordstore"],
             "modelled": ENGINE_MODELLED + ["the reference store contract (Store = record + one outbox entry atomically); bundled stores are tied to it by C17/C18"],
             "assumptions": ["outbox lookup limit >= 1 for progress"]},
     "C06": {"lean": ["WorkflowModel.Props.C06"], "suites": ["pure-routing"] + SIM,
@@ -37,4 +37,7 @@ PROPS = {
     "C15": {"lean": ["WorkflowModel.Props.C15"], "suites": SIMADV, "modelled": ENGINE_MODELLED, "assumptions": ["custom delete function idempotent on already scrubbed objects (the harness's is)"]},
     "C16": {"lean": ["WorkflowModel.Props.C16"], "suites": ["pure-ctl"] + SIMADV, "modelled": ENGINE_MODELLED,
             "assumptions": ["JSON encode/decode of the object external", "no nested writes to the same run inside a user function (F20 listed)"]},
+    "C17": {"lean": ["WorkflowModel.Props.C17"], "suites": ["mem-recordstore"],
+            "modelled": ["RefStore (lean/WorkflowModel/Model/Adapters/RefStore.lean) is the contract; memrecordstore is tied to it by differential runs, not by a Lean model of its maps"],
+            "assumptions": ["a run ID belongs to one (workflow, foreign ID) for ever", "offsets >= 0"]},
 }
